@@ -26,7 +26,7 @@ class UnitR(Unit):
     def build(self, repo, probe=False):
         out = Out()
         out.spec(HEAD)
-        self._trusted = prelude(out, ['ax-rc', 'ax-parse', 'ax-string-eq', 'ax-tryfrom', 'stdspec-parse', 'stdspec-chars', 'stdspec-contains'],
+        self._trusted = prelude(out, ['ax-rc', 'ax-parse', 'ax-string-eq', 'ax-tryfrom', 'ax-from-unsigned', 'stdspec-parse', 'stdspec-chars', 'stdspec-contains'],
                                 [('dep_reqwest.rs', ['reqwest-error'])])
         hc = HelpersContent(repo)
         hc.emit_error(out, probe, record=False)
